@@ -98,6 +98,10 @@ TABLE = {
             'Static, safety half: the 10 state-changing atoms of handleDatagram (learn candidate, create/nominate pair, triggered check, feed transaction, select active pair, connected(), binding response) are unreachable when the keyed decode fails and when no session password is set; '
             'the password is chosen by message class symmetrically to the sender and is the decode key; a keyed decode cannot succeed without a verified MESSAGE-INTEGRITY; responses reach their transaction only after id and source-address match; activePair/connected only under pair->nominated.',
             'Liveness (two honest agents connect, under loss), candidate/pair priority values and datagram pass-through are schedule/numeric claims: not decided.', 'DESIGN.md §2 C15'),
+    'C18': ('abstract evaluation of the trust-message decision code for all 8 combinations of (own account, key owner, sender key authenticated) with operand identity checks, closed call-structure (who-may-call) rules around authenticate/setTrustLevel(Authenticated), promise typestate',
+            'Static: in the decision continuation the apply-sets are reachable exactly for qualified ∧ authenticated, the postponed list exactly for qualified ∧ ¬authenticated, nothing otherwise (exhaustive over the 8 combinations); the three tests compare the sender\'s bare JID with the own bare JID / key owner JID and the trust level delivered for (encryption, sender, e2ee sender key) with Authenticated; '
+            'own-device reflections and non-ATM elements are ignored; authenticate()/distrust()/makePostponedTrustDecisions()/setTrustLevel(Authenticated) have closed caller sets; postponed decisions are fired only after authentication with the just-authenticated keys, removed before being applied and discarded by distrust; the policy arm is guarded.',
+            'Conformance to the XEP-0450 reference model over all histories of decisions, and the correctness of the storage back-ends, are not decided.', 'DESIGN.md §2 C18'),
 }
 
 NOT_APPLICABLE_REASON = 'check not built yet in this session (see DESIGN.md); listed here until qxverif/rules/<id>.py exists'
